@@ -117,7 +117,9 @@ Inductive event :=
 | EDelete (c : tag)                             (* delete response of call c (unique_ptr d, line 105) *)
 | ELeak (c : tag)                               (* entry erased, closure of c neither run nor deleted *)
 | EDispatch (k : tok) (i : Z) (svc meth : name) (req : bytes)  (* service->CallMethod(.., done_k) for request id i *)
-| ESendResponse (i : Z) (r : reply).            (* RESPONSE frame handed to the connection *)
+| ESendResponse (i : Z) (r : reply)             (* RESPONSE frame handed to the connection *)
+| EDrop (c : tag)                               (* ~RpcChannel: delete done of call c, never run (RpcChannel.cc:41) *)
+| EUseAfterFree (k : tok).                      (* doneCallback k runs on a destroyed RpcChannel (see [cstep]) *)
 
 (* ---- finite maps as association lists ---- *)
 Fixpoint lookup {A} (i : Z) (m : list (Z * A)) : option A :=
@@ -296,6 +298,87 @@ Definition exec : state -> list label -> option (state * trace) := exec_gen fals
 Definition exec_code : state -> list label -> option (state * trace) := exec_gen true.
 
 Definition events (tr : trace) : list event := flat_map snd tr.
+
+(* ---- the life cycle of the connection: the channel while its connection is UP is [step]; [cstep] adds
+   the connection going DOWN (TcpConnection: exactly one DOWN, no message is delivered after it: C02).
+     owned = true   the channel was made by RpcServer::onConnection (RpcServer.cc:46-53): the only
+                    shared_ptr to it is the connection's context; on DOWN `conn->setContext(RpcChannelPtr())`
+                    (line 56) destroys it: ~RpcChannel deletes the response object and the closure of every
+                    outstanding call without running it (RpcChannel.cc:34-43).  The done callbacks handed to
+                    services were made by NewCallback(this, &RpcChannel::doneCallback, ..) with the RAW this
+                    (line 139): running one afterwards executes doneCallback on the destroyed object
+                    (EUseAfterFree).  Calls on the channel after DOWN are not enabled (there is no channel).
+     owned = false  the user owns the channel (examples/protobuf/rpc/client.cc style): it outlives the
+                    connection; conn_ keeps the TcpConnection object alive in state kDisconnected, whose
+                    send() does nothing (TcpConnection.cc `if (state_ == kConnected)`): CallMethod still
+                    fetches and registers, nothing reaches the wire; a done callback builds its reply and
+                    it is dropped. *)
+Inductive clabel := CL (l : label) | CDown.
+
+Record chan := mkChan {
+  core : state;
+  up : bool;          (* conn_->connected() *)
+  owned : bool        (* made and owned by RpcServer::onConnection *)
+}.
+
+Definition cinit (own : bool) (svcs : option (list (name * list name))) : chan := mkChan (init svcs) true own.
+
+Definition dtor_events (m : list (Z * call)) : list event :=
+  flat_map (fun p => (if c_resp (snd p) then [EDelete (c_tag (snd p))] else []) ++
+                     (if c_done (snd p) then [EDrop (c_tag (snd p))] else [])) m.
+
+Definition drop_outs (s : state) : state :=
+  mkState (next_id s) [] (threads s) (services s) (next_tok s) (pending s).
+
+Definition lift (c : chan) (r : option (state * list event)) : option (chan * list event) :=
+  match r with Some (s', ev) => Some (mkChan s' (up c) (owned c), ev) | None => None end.
+
+(* the step is taken, what it would have sent is replaced by [ev'] *)
+Definition quiet (c : chan) (r : option (state * list event)) (ev' : list event) : option (chan * list event) :=
+  match r with Some (s', _) => Some (mkChan s' (up c) (owned c), ev') | None => None end.
+
+Definition cstep_gen (lax : bool) (c : chan) (l : clabel) : option (chan * list event) :=
+  match l with
+  | CDown =>
+      if up c then
+        if owned c then Some (mkChan (drop_outs (core c)) false true, dtor_events (outs (core c)))
+        else Some (mkChan (core c) false false, [])
+      else None
+  | CL l0 =>
+      if up c then lift c (step_gen lax (core c) l0)
+      else
+        match l0 with
+        | LFetch _ _ | LRegister _ => if owned c then None else lift c (step_gen lax (core c) l0)
+        | LSend _ => if owned c then None else quiet c (step_gen lax (core c) l0) []
+        | LDone k _ => quiet c (step_gen lax (core c) l0) (if owned c then [EUseAfterFree k] else [])
+        | LResponse _ _ | LRequest _ | LOther _ => None
+        end
+  end.
+
+Definition cstep : chan -> clabel -> option (chan * list event) := cstep_gen false.
+Definition cstep_code : chan -> clabel -> option (chan * list event) := cstep_gen true.
+
+Definition ctrace := list (clabel * list event).
+
+Fixpoint cexec (c : chan) (ls : list clabel) : option (chan * ctrace) :=
+  match ls with
+  | [] => Some (c, [])
+  | l :: r =>
+      match cstep c l with
+      | None => None
+      | Some (c', ev) =>
+          match cexec c' r with
+          | None => None
+          | Some (c'', tr) => Some (c'', (l, ev) :: tr)
+          end
+      end
+  end.
+
+Definition cevents (tr : ctrace) : list event := flat_map snd tr.
+Definition wrap_trace (tr : trace) : ctrace := map (fun p => (CL (fst p), snd p)) tr.
+(* what is left of a step's events when nothing can be sent *)
+Definition mute (ev : list event) : list event :=
+  filter (fun e => match e with ESendRequest _ _ _ _ | ESendResponse _ _ => false | _ => true end) ev.
 
 (* the whole CallMethod on one thread without interleaving (a call made on the loop thread) *)
 Definition call_labels (t : tid) (c : call) : list label := [LFetch t c; LRegister t; LSend t].
